@@ -15,8 +15,8 @@ from concurrent.futures import ThreadPoolExecutor
 ROOT = os.path.dirname(os.path.dirname(os.path.abspath(__file__)))
 SPEC = os.path.join(ROOT, "spec")
 HARNESS = os.path.join(ROOT, "harness")
-EVIDENCE = os.path.join(ROOT, "evidence")
-REPLAYS = os.path.join(ROOT, "replays")
+EVIDENCE = os.environ.get("VERIF_EVIDENCE_DIR", os.path.join(ROOT, "evidence"))
+REPLAYS = os.path.join(ROOT, "replays") if "VERIF_EVIDENCE_DIR" not in os.environ else os.path.join(os.environ["VERIF_EVIDENCE_DIR"], "replays")
 REPO = os.environ.get("VERIF_REPO", "/repo")
 TLA_CP = "/opt/veriftools/tla/tla2tools.jar:/opt/veriftools/tla/CommunityModules-deps.jar"
 NCPU = os.cpu_count() or 4
@@ -159,18 +159,35 @@ def tlc_ok_or_inconclusive(res, what):
 # ----------------------------------------------------------------------------
 # Go
 
+_harness_copy = None
+
+
+def harness_dir():
+    """The harness module. Checks always build against /repo (the replace directive in harness/go.mod).
+    For evaluating a seeded change in a scratch worktree without touching /repo, VERIF_REPO=<dir> builds a
+    scratch copy of the harness whose replace directive points there (developer use only)."""
+    global _harness_copy
+    if REPO == "/repo":
+        return HARNESS
+    if _harness_copy is None:
+        d = os.path.join(scratch("harness"), "harness")
+        shutil.copytree(HARNESS, d)
+        gm = open(os.path.join(d, "go.mod")).read().replace("=> /repo", "=> " + REPO)
+        open(os.path.join(d, "go.mod"), "w").write(gm)
+        _harness_copy = d
+    return _harness_copy
+
+
 def go_build(pkg, race=False, tags="verif"):
-    """Build harness command ./cmd/<pkg> against /repo's current working tree."""
+    """Build harness command ./cmd/<pkg> against the repository's current working tree."""
     out = os.path.join(scratch("bin"), pkg + ("-race" if race else ""))
-    # the harness module resolves the library through `replace => /repo`
-    if REPO != "/repo":
-        raise Inconclusive("VERIF_REPO other than /repo is not supported by the harness go.mod")
-    shutil.copy(os.path.join(REPO, "go.sum"), os.path.join(HARNESS, "go.sum"))
+    hd = harness_dir()
+    shutil.copy(os.path.join(REPO, "go.sum"), os.path.join(hd, "go.sum"))
     cmd = ["go", "build", "-tags", tags]
     if race:
         cmd.append("-race")
     cmd += ["-o", out, "./cmd/" + pkg]
-    p = subprocess.run(cmd, cwd=HARNESS, env=goenv(), stdout=subprocess.PIPE, stderr=subprocess.STDOUT, text=True)
+    p = subprocess.run(cmd, cwd=hd, env=goenv(), stdout=subprocess.PIPE, stderr=subprocess.STDOUT, text=True)
     if p.returncode != 0:
         raise Inconclusive("go build %s failed:\n%s" % (pkg, p.stdout[-4000:]))
     return out
